@@ -3,7 +3,7 @@
    compiler decides beyond this (imports, gofmt, the full type checker) is decided by the compiler on
    every corpus package, see DESIGN.md section 5 C08. *)
 From GV Require Import Base.Bytes Base.StrOps GoLite.Syntax GoLite.Sem.
-From GV Require Import Gen.Decl Gen.Rules Gen.Template Gen.Guard Gen.GenProofs3 Gen.Names Gen.Harness.
+From GV Require Import Gen.Decl Gen.Rules Gen.Template Gen.Spec Gen.Guard Gen.GenProofs1 Gen.Typed Gen.GenProofs3 Gen.GenExact Gen.Names Gen.Harness.
 
 (* no missing declaration: every error variable that a check of the emitted function copies, and the
    nil-receiver sentinel, is declared by the file's var block — for EVERY declaration (any nesting, any marker
@@ -78,6 +78,30 @@ Definition d9_decl : sdecl :=
 Theorem C08_nested_alias_clash_refuted :
   flat d9_decl = false /\ kf_duplicate_names [] d9_decl = true.
 Proof. vm_compute. auto. Qed.
+
+(* the checks are well-typed: for a declaration whose marker parameters are in the documented language (params_ok) no
+   emitted condition is ill-typed on any value of the declared field types (in the model: RStuck, "the Go compiler would
+   reject the comparison") *)
+Theorem C08_documented_parameters_are_well_typed : forall ipc tab d f root,
+  in_guard tab d = true -> params_ok tab d = true -> gen_file tab d = Some f -> wt_struct d root ->
+  o_res (exec_file ipc background f (Some root)) <> RStuck.
+Proof. intros ipc tab d f root G P Hf W. exact (proj1 (gen_exact_typed ipc tab d f root G P Hf W)). Qed.
+Print Assumptions C08_documented_parameters_are_well_typed.
+
+(* each condition on its own: the factory's output for a documented parameter evaluates to a boolean or panics, never "ill-typed" *)
+Theorem C08_condition_well_typed : forall ipc tab r f t arg c cur v,
+  rule_params_ok tab r arg t = true ->
+  make_cond tab r f t arg = WithCond c -> get_field cur f = Some v -> has_type v t = true ->
+  eval_cond ipc (VStruct cur) c <> CStuck.
+Proof. exact cond_typed. Qed.
+Print Assumptions C08_condition_well_typed.
+
+(* an undocumented parameter is refuted on the model: gt=abc has no value, the comparison is ill-typed *)
+Theorem C08_undocumented_parameter_refuted :
+  let d := {| sd_name := bs "T"; sd_doc := []; sd_fields := [FPlain [bs "A"] [bs "//govalid:gt=abc"] (TBasic (BInt IInt))] |} in
+  params_ok [] d = false /\
+  exists f, gen_file [] d = Some f /\ o_res (exec_file (fun _ => NotIP) background f (Some (VStruct [(bs "A", VInt 1%Z)]))) = RStuck.
+Proof. split; [reflexivity|]. eexists. split; [reflexivity|]. vm_compute. reflexivity. Qed.
 
 (* output files: the structs of one source file are written to pairwise different files exactly when their lower-cased
    names are pairwise different (for any lower-casing function; the generator uses strings.ToLower) *)
